@@ -19,11 +19,11 @@ add('C01','delete-parent-key',ND,"		ctx.Delete(child.segment.Name)","		ctx.Delet
 add('C01','set-under-suffix',SG,"						ctx.Set(seg.Name, val)","						ctx.Set(seg.Suffix, val)",'violation:C01.R2')
 add('C01','set-without-ignore-test',SG,"				if !seg.ignoreName {\n					ctx.Set(seg.Name, ctx.Path)\n				}","				ctx.Set(seg.Name, ctx.Path)",'violation:C01.R2')
 add('C01','unquote-suffix',SG,'regexp.QuoteMeta(seg.Suffix)','seg.Suffix','violation:C01.R3')
-add('C01','lookup-constant-method',TR,"	if h, exists := node.handlers[method]; exists {","	if h, exists := node.handlers[http.MethodGet]; exists {",'violation:C01.R4')
+add('C01','lookup-constant-method',TR,"	if h, exists := node.handlers[method]; exists && method != methodNotAllowed {","	if h, exists := node.handlers[http.MethodGet]; exists && method != methodNotAllowed {",'violation:C01.R4')
 add('C01','drop-size-test',ND,"	if len(ctx.Path) == 0 && n.size() > 0 {","	if len(ctx.Path) == 0 {",'violation:C01.R4')
 add('C01','405-of-root',TR,"	return node, node.handlers[methodNotAllowed], false","	return node, tree.node.handlers[methodNotAllowed], false",'violation:C01.R4')
-add('C01','benign-undo-helper',ND,"		ctx.Path = path\n		ctx.Delete(child.segment.Name)\n	}","		ctx.Path = path\n		name := child.segment.Name\n		ctx.Delete(name)\n	}",'silent','local alias of the key')
-add('C01','benign-builder-regexp',SG,'regexp.Compile("(?" + name + seg.rule + ")" + regexp.QuoteMeta(seg.Suffix))','regexp.Compile("(?" + name + seg.rule + ")" + regexp.QuoteMeta(seg.Suffix) + "")','silent')
+add('C01','benign-undo-helper',ND,"			ctx.Delete(child.segment.Name)\n		}\n	}","			name := child.segment.Name\n			ctx.Delete(name)\n		}\n	}",'silent','local alias of the key')
+add('C01','benign-builder-regexp',SG,'regexp.Compile("(?" + name + seg.rule + ")" + tail)','regexp.Compile("(?" + name + seg.rule + ")" + tail + "")','silent')
 
 # ---------------- C02
 add('C02','swap-regexp-named',SY,"	Regexp\n\n	// Named 命名参数，相对于正则，其效率更高，当然也没有正则灵活。比如：\n	//  {id}/abc\n	// 可以匹配 /users/1、/users/2 和 /users/username 等非数值类型\n	Named\n","	Named\n\n	Regexp\n",'violation:C02.R1')
@@ -48,7 +48,7 @@ add('C03','benign-nil-index',ND,"		n.children = n.children[:0]\n		n.buildIndexes
 add('C03','benign-fresh-map',ND,"	if n.indexes == nil {\n		n.indexes = make(map[byte]int, indexesSize)\n	}\n	clear(n.indexes)","	n.indexes = make(map[byte]int, indexesSize)",'silent','fresh map on every rebuild')
 
 # ---------------- C04
-add('C03','clean-breaks-early',ND,"			if strings.HasPrefix(prefix, child.segment.Value) {\n				child.clean(prefix[len(child.segment.Value):])\n			}","			if strings.HasPrefix(prefix, child.segment.Value) {\n				child.clean(prefix[len(child.segment.Value):])\n				break\n			}",'violation:C03.R4')
+add('C03','clean-breaks-early',ND,"					dels = append(dels, child.segment.Value)\n				}\n			}\n		}","					dels = append(dels, child.segment.Value)\n				}\n				break\n			}\n		}",'violation:C03.R4')
 add('C03','remove-all-by-default-list',TR,"	if len(methods) == 0 {\n		child.handlers = nil\n	} else {","	if len(methods) == 0 {\n		methods = AnyMethods\n	}\n	{",'violation:C03.R5')
 add('C03','resource-clean-cleans-tree',RO,"func (r *Resource[T]) Clean() { r.router.Remove(r.pattern) }","func (r *Resource[T]) Clean() { r.router.tree.Clean(r.pattern) }",'violation:C03.R6')
 add('C03','benign-remove-all-clear',TR,"	if len(methods) == 0 {\n		child.handlers = nil\n	} else {","	if len(methods) == 0 {\n		clear(child.handlers)\n	} else {",'silent')
@@ -77,7 +77,7 @@ add('C05','drop-root-405',TR,"		methodNotAllowed:   tree.methodNotAllowedBuilder
 add('C05','remove-405-by-name',TR,"case http.MethodOptions, http.MethodHead, methodNotAllowed:","case http.MethodOptions, http.MethodHead:",'violation:C05.R1b')
 add('C05','size-3',TR,"		if child.size() == 2 {","		if child.size() == 3 {",'violation:C05.R1c')
 add('C05','drop-presence-tests',TR,"			if e1 && e2 {\n				delete(child.handlers, http.MethodOptions)\n				delete(child.handlers, methodNotAllowed)\n			}","			_, _ = e1, e2\n			delete(child.handlers, http.MethodOptions)\n			delete(child.handlers, methodNotAllowed)",'violation:C05.R1c')
-add('C05','panic-in-match',SG,"	case Regexp:\n		if seg.ignoreName {\n			if loc","	case Regexp:\n		if seg.expr == nil {\n			panic(\"no expr\")\n		}\n		if seg.ignoreName {\n			if loc",'violation:C05.R3')
+add('C05','panic-in-match',SG,"	case Regexp:\n		// 正则表达式会将无效的 utf8 字节当作 U+FFFD 处理，Suffix 作为普通字符串需要按字节再次比较。\n		if seg.ignoreName {","	case Regexp:\n		if seg.expr == nil {\n			panic(\"no expr\")\n		}\n		if seg.ignoreName {",'violation:C05.R3')
 add('C05','panic-string-in-Add',ME,'			return fmt.Errorf("该请求方法 %s 已经存在", m)','			panic("该请求方法已经存在")','violation:C05.R3')
 add('C05','drop-path-nonempty',ND,"	if len(n.indexes) > 0 && len(ctx.Path) > 0 {","	if len(n.indexes) > 0 {",'violation:C05.R4')
 add('C05','drop-minus-one-hosts',MA,"	if i := strings.LastIndexByte(h, ':'); i != -1 && validOptionalPort(h[i:]) {","	if i := strings.LastIndexByte(h, ':'); validOptionalPort(h[i:]) {",'violation:C05.R4')
@@ -94,7 +94,7 @@ add('C06','precheck-before-lock',TR,"	if tree.locker != nil {\n		tree.locker.Loc
 add('C06','url-without-lock',TR,"func (tree *Tree[T]) URL(buf *errwrap.StringBuilder, pattern string, ps map[string]string) error {\n	if tree.locker != nil {\n		tree.locker.RLock()\n		defer tree.locker.RUnlock()\n	}\n","func (tree *Tree[T]) URL(buf *errwrap.StringBuilder, pattern string, ps map[string]string) error {\n",'violation:C06.R1')
 add('C06','summary-read-unlocked',ME,"func (n *node[T]) AllowHeader() string { return getMethodIndexEntity(n.getMethodIndex()).options }","func (n *node[T]) AllowHeader() string { return getMethodIndexEntity(n.methodIndex).options }",'violation:C06.R1')
 add('C06','leak-lock-in-Routes',TR,"func (tree *Tree[T]) Routes() map[string][]string {\n	if tree.locker != nil {\n		tree.locker.RLock()\n		defer tree.locker.RUnlock()\n	}","func (tree *Tree[T]) Routes() map[string][]string {\n	if tree.locker != nil {\n		tree.locker.RLock()\n	}",'violation:C06.R2')
-add('C06','reentrant-rlock-in-routes',ND,"		routes[n.Pattern()] = getMethodIndexEntity(n.methodIndex).methods // 已经在 Routes 的锁范围之内","		routes[n.Pattern()] = n.Methods()",'violation:C06.R2')
+add('C06','reentrant-rlock-in-routes',ND,"		routes[n.Pattern()] = slices.Clone(getMethodIndexEntity(n.methodIndex).methods) // 已经在 Routes 的锁范围之内","		routes[n.Pattern()] = n.Methods()",'violation:C06.R2')
 add('C06','lock-order-inverted',ME,"func (n *node[T]) AllowHeader() string { return getMethodIndexEntity(n.getMethodIndex()).options }","func (n *node[T]) AllowHeader() string {\n	methodIndexesLocker.RLock()\n	defer methodIndexesLocker.RUnlock()\n	return methodIndexes[n.getMethodIndex()].options\n}",'violation:C06.R3')
 add('C06','benign-memo-read-before-tree-lock-released',ME,"func (n *node[T]) AllowHeader() string { return getMethodIndexEntity(n.getMethodIndex()).options }","func (n *node[T]) AllowHeader() string {\n	i := n.getMethodIndex()\n	e := getMethodIndexEntity(i)\n	return e.options\n}",'silent')
 add('C06','benign-explicit-unlock',TR,"func (tree *Tree[T]) Clean(prefix string) {\n	if tree.locker != nil {\n		tree.locker.Lock()\n		defer tree.locker.Unlock()\n	}\n\n	tree.node.clean(prefix)\n	tree.recountMethods()\n}","func (tree *Tree[T]) Clean(prefix string) {\n	if tree.locker != nil {\n		tree.locker.Lock()\n	}\n\n	tree.node.clean(prefix)\n	tree.recountMethods()\n	if tree.locker != nil {\n		tree.locker.Unlock()\n	}\n}",'silent')
@@ -124,10 +124,10 @@ add('C08','drop-head-rejection',ME,"if m == http.MethodOptions || m == http.Meth
 add('C08','drop-method-table-check',ME,"		if _, found := methodIndexMap[m]; !found {\n			return fmt.Errorf(\"该请求方法 %s 不被支持\", m)\n		}\n","",'violation:C08.R4')
 add('C08','validate-only-first',ME,"func (tree *Tree[T]) checkMethods(n *node[T], methods []string) error {\n	for i, m := range methods {","func (tree *Tree[T]) checkMethods(n *node[T], methods []string) error {\n	for i, m := range methods[:min(1, len(methods))] {",'violation:C08.R4')
 add('C08','trace-always-refused',ME,"(tree.hasTrace && m == http.MethodTrace)","(m == http.MethodTrace)",'violation:C08.R4')
-add('C08','head-writer-forwards',RO,"	resp.Header().Set(header.ContentLength, strconv.Itoa(resp.size))\n	return l, nil","	resp.Header().Set(header.ContentLength, strconv.Itoa(resp.size))\n	return resp.ResponseWriter.Write(bs)",'violation:C08.R5')
+add('C08','head-writer-forwards',RO,"	h.Set(header.ContentLength, strconv.Itoa(resp.size))\n	return l, nil","	h.Set(header.ContentLength, strconv.Itoa(resp.size))\n	return resp.ResponseWriter.Write(bs)",'violation:C08.R5')
 add('C08','content-length-of-last-write',RO,"strconv.Itoa(resp.size))","strconv.Itoa(l))",'violation:C08.R5')
 add('C08','head-wrapper-on-every-method',RO,"		if req.Method == http.MethodHead {\n			w = &headResponse{ResponseWriter: w}\n		}","		if req.Method != http.MethodGet {\n			w = &headResponse{ResponseWriter: w}\n		}",'violation:C08.R5')
-add('C08','benign-rename-local',RO,"	l := len(bs)\n	resp.size += l\n","	l := len(bs)\n	resp.size = resp.size + l\n",'silent')
+add('C08','benign-rename-local',RO,"	resp.size += l\n	h.Set(header.ContentLength","	resp.size = resp.size + l\n	h.Set(header.ContentLength",'silent')
 
 # ---------------- C09
 add('C09','swap-concat-prefix-handle',RO,"	p.router.Handle(p.Pattern()+pattern, h, slices.Concat(m, p.ms), methods...)","	p.router.Handle(p.Pattern()+pattern, h, slices.Concat(p.ms, m), methods...)",'violation:C09.R2')
@@ -149,7 +149,7 @@ add('C10','drop-interceptor-case',TR,"		case syntax.Named, syntax.Regexp, syntax
 add('C10','emit-before-valid',TR,"			if !s.Valid(param) {\n				return fmt.Errorf(\"参数 %s 格式不匹配\", s.Name)\n			}\n\n			buf.WString(param).WString(s.Suffix)","			buf.WString(param).WString(s.Suffix)\n			if !s.Valid(param) {\n				return fmt.Errorf(\"参数 %s 格式不匹配\", s.Name)\n			}",'violation:C10.R2')
 add('C10','drop-start-anchor',SG,"locs != nil && locs[0] == 0 && locs[1] == len(pattern)","locs != nil && locs[1] == len(pattern)",'violation:C10.R2')
 add('C10','drop-end-anchor',SG,"locs != nil && locs[0] == 0 && locs[1] == len(pattern)","locs != nil && locs[0] == 0",'violation:C10.R2')
-add('C10','drop-match-anchor',SG,"loc := seg.expr.FindStringIndex(ctx.Path); loc != nil && loc[0] == 0 {","loc := seg.expr.FindStringIndex(ctx.Path); loc != nil {",'violation:C10.R2')
+add('C10','drop-match-anchor',SG,"loc := seg.expr.FindStringIndex(ctx.Path); loc != nil && loc[0] == 0 && strings.HasSuffix","loc := seg.expr.FindStringIndex(ctx.Path); loc != nil && strings.HasSuffix",'violation:C10.R2')
 add('C10','old-case-order',RO,"	case len(params) == 0 && !strict:","	case len(params) == 0:",'violation:C10.R3')
 add('C10','continue-on-missing',SY,"		if !found {\n			return fmt.Errorf(\"未找到参数 %s 的值\", seg.Name)\n		}","		if !found {\n			continue\n		}",'violation:C10.R4')
 add('C10','drop-suffix',SY,"		buf.WString(val).WString(seg.Suffix)","		buf.WString(val)",'violation:C10.R4')
@@ -169,19 +169,19 @@ add('C11','drop-deny',OP,"	if c.deny {\n		return\n	}\n","",'violation:C11.R3')
 add('C11','deny-from-flag',OP,"	c.deny = len(c.Origins) == 0","	c.deny = len(c.Origins) == 0 && !c.AllowCredentials",'violation:C11.R3')
 add('C11','cors-before-ok',RO,"	if ok { // !ok 即为 405 或是 404 状态\n		r.cors.handle(node, w.Header(), req)","	r.cors.handle(node, w.Header(), req)\n	if ok { // !ok 即为 405 或是 404 状态",'violation:C11.R4')
 add('C11','drop-return-header-test',OP,"		if !c.headerIsAllowed(r) {\n			return\n		}","		_ = c.headerIsAllowed(r)",'violation:C11.R5')
-add('C11','drop-return-method-test',OP,"		if slices.Index(node.Methods(), reqMethod) < 0 {\n			return\n		}","		_ = slices.Index(node.Methods(), reqMethod)",'violation:C11.R5')
+add('C11','drop-return-method-test',OP,"		if slices.Index(methods, reqMethod) < 0 {\n			return\n		}","		_ = slices.Index(methods, reqMethod)",'violation:C11.R5')
 add('C11','benign-contains',OP,"		if slices.Index(c.Origins, origin) < 0 {\n			return\n		}","		if !slices.Contains(c.Origins, origin) {\n			return\n		}",'silent')
 
 # ---------------- C12
-add('C12','case-sensitive-compare',OP,"		if !slices.ContainsFunc(c.AllowHeaders, func(h string) bool { return strings.EqualFold(h, strings.TrimSpace(v)) }) {","		if slices.Index(c.AllowHeaders, strings.TrimSpace(v)) < 0 {",'violation:C12.R1')
+add('C12','case-sensitive-compare',OP,"		if !slices.ContainsFunc(c.AllowHeaders, func(h string) bool { return strings.EqualFold(h, v) }) {","		if slices.Index(c.AllowHeaders, v) < 0 {",'violation:C12.R1')
 add('C12','vary-response-header',OP,"	wh.Add(header.Vary, header.Origin)","	wh.Add(header.Vary, header.AccessControlAllowOrigin)",'violation:C12.R2')
 add('C12','drop-vary-request-method',OP,"		wh.Add(header.Vary, header.AccessControlRequestMethod)\n","",'violation:C12.R2')
 add('C12','max-age-outside-preflight',OP,"		// Access-Control-Max-Age\n		if c.maxAgeString != \"\" {\n			wh.Set(header.AccessControlMaxAge, c.maxAgeString)\n		}\n	}\n","	}\n	if c.maxAgeString != \"\" {\n		wh.Set(header.AccessControlMaxAge, c.maxAgeString)\n	}\n",'violation:C12.R3')
 add('C12','expose-only-on-preflight',OP,"	// Access-Control-Expose-Headers\n	if c.exposedHeadersString != \"\" {","	// Access-Control-Expose-Headers\n	if preflight && c.exposedHeadersString != \"\" {",'violation:C12.R3')
-add('C12','allow-methods-constant',OP,"		wh.Set(header.AccessControlAllowMethods, node.AllowHeader())","		wh.Set(header.AccessControlAllowMethods, reqMethod)",'violation:C12.R4')
+add('C12','allow-methods-constant',OP,"		wh.Set(header.AccessControlAllowMethods, strings.Join(methods, \", \"))","		wh.Set(header.AccessControlAllowMethods, reqMethod)",'violation:C12.R4')
 add('C12','allow-headers-echo-request',OP,"			wh.Set(header.AccessControlAllowHeaders, c.allowHeadersString)","			wh.Set(header.AccessControlAllowHeaders, r.Header.Get(header.AccessControlRequestHeaders))",'violation:C12.R4')
 add('C12','exposed-from-allow',OP,"		c.exposedHeadersString = strings.Join(c.ExposedHeaders, \",\")","		c.exposedHeadersString = strings.Join(c.AllowHeaders, \",\")",'violation:C12.R4')
-add('C12','benign-tolower-compare',OP,"		if !slices.ContainsFunc(c.AllowHeaders, func(h string) bool { return strings.EqualFold(h, strings.TrimSpace(v)) }) {","		want := strings.TrimSpace(v)\n		if !slices.ContainsFunc(c.AllowHeaders, func(h string) bool { return strings.EqualFold(want, h) }) {",'silent')
+add('C12','benign-tolower-compare',OP,"		if !slices.ContainsFunc(c.AllowHeaders, func(h string) bool { return strings.EqualFold(h, v) }) {","		want := v\n		if !slices.ContainsFunc(c.AllowHeaders, func(h string) bool { return strings.EqualFold(want, h) }) {",'silent')
 
 # ---------------- C13
 add('C13','drop-ctx-reset',GR,"		r.URL.Path = path\n		ctx.Reset()","		r.URL.Path = path",'violation:C13.R2')
@@ -195,18 +195,18 @@ add('C13','benign-reorder-undo',GR,"		r.URL.Path = path\n		ctx.Reset()","		ctx.R
 
 # ---------------- C14
 add('C14','drop-tolower-match',MA,"	ctx.Path = strings.ToLower(h)","	ctx.Path = h",'violation:C14.R1')
-add('C14','drop-tolower-add',MA,"hs.tree.Add(strings.ToLower(d), hs.emptyHandlerFunc","hs.tree.Add(d, hs.emptyHandlerFunc",'violation:C14.R1')
-add('C14','drop-tolower-delete',MA,"hs.tree.Remove(strings.ToLower(domain))","hs.tree.Remove(domain)",'violation:C14.R1')
+add('C14','drop-tolower-add',MA,"hs.tree.Add(lowerDomain(d), hs.emptyHandlerFunc","hs.tree.Add(d, hs.emptyHandlerFunc",'violation:C14.R1')
+add('C14','drop-tolower-delete',MA,"hs.tree.Remove(lowerDomain(domain))","hs.tree.Remove(domain)",'violation:C14.R1')
 add('C14','drop-port-validation',MA,"i != -1 && validOptionalPort(h[i:]) {","i != -1 {",'violation:C14.R3')
 add('C14','brackets-prefix-only',MA,"	if strings.HasPrefix(h, \"[\") && strings.HasSuffix(h, \"]\") { // ipv6","	if strings.HasPrefix(h, \"[\") { // ipv6",'violation:C14.R3')
 add('C14','drop-clear',ND,"	clear(n.indexes)\n","",'violation:C14.R2')
-add('C14','benign-lower-local',MA,"func (hs *Hosts) Delete(domain string) { hs.tree.Remove(strings.ToLower(domain)) }","func (hs *Hosts) Delete(domain string) {\n	d := strings.ToLower(domain)\n	hs.tree.Remove(d)\n}",'silent')
+add('C14','benign-lower-local',MA,"func (hs *Hosts) Delete(domain string) { hs.tree.Remove(lowerDomain(domain)) }","func (hs *Hosts) Delete(domain string) {\n	d := lowerDomain(domain)\n	hs.tree.Remove(d)\n}",'silent')
 
 # ---------------- C15
 add('C15','hasprefix-of-stripped',MA,"		if strings.HasPrefix(p, ver) {\n			vv := ver[:len(ver)-1]","		if strings.HasPrefix(p, ver[:len(ver)-1]) {\n			vv := ver[:len(ver)-1]",'violation:C15.R1')
 add('C15','record-with-slash',MA,"				ctx.Set(v.paramName, vv)\n			}\n\n			return true","				ctx.Set(v.paramName, ver)\n			}\n\n			return true",'violation:C15.R1')
 add('C15','trim-full-version',MA,"			r.URL.Path = strings.TrimPrefix(p, vv)","			r.URL.Path = strings.TrimPrefix(p, ver)",'violation:C15.R1')
-add('C15','skip-trailing-slash-normalisation',MA,"		if v[len(v)-1] != '/' {\n			v += \"/\"\n		}\n		version[i] = v","		version[i] = v",'violation:C15.R1')
+add('C15','skip-trailing-slash-normalisation',MA,"		if v[len(v)-1] != '/' {\n			v += \"/\"\n		}\n		versions[i] = v","		versions[i] = v",'violation:C15.R1')
 add('C15','header-accepts-prefix',MA,"		if vv == ver {","		if strings.HasPrefix(ver, vv) {",'violation:C15.R3')
 add('C15','header-parse-error-accepts',MA,"		v.errlog(err)\n		return false","		v.errlog(err)\n		return len(v.versions) == 0",'violation:C15.R3')
 add('C15','benign-rename',MA,"			vv := ver[:len(ver)-1]\n\n			r.URL.Path = strings.TrimPrefix(p, vv)","			vv := ver[:len(ver)-1]\n			r.URL.Path = strings.TrimPrefix(p, vv)",'silent')
@@ -216,7 +216,7 @@ add('C16','defer-after-handler-lookup',RO,"	if r.recoverFunc != nil {\n		defer f
 add('C16','wrapped-panic-value',RO,"				r.recoverFunc(w, err)","				r.recoverFunc(w, fmt.Sprint(err))",'violation:C16.R2')
 add('C16','group-new-drops-options',GR,"	o = slices.Concat(g.options, o)\n","",'violation:C16.R3')
 add('C16','group-new-own-first',GR,"	o = slices.Concat(g.options, o)","	o = slices.Concat(o, g.options)",'violation:C16.R3')
-add('C16','router-drops-option',RO,"		recoverFunc: opt.recoverFunc,\n	}\n\n	return r","	}\n\n	return r",'violation:C16.R3')
+add('C16','router-drops-option',RO,"		recoverFunc: opt.recoverFunc,\n\n		interceptors: opt.interceptors,\n	}","\n		interceptors: opt.interceptors,\n	}",'violation:C16.R3')
 add('C16','group-destroy-not-deferred',GR,"	ctx := types.NewContext()\n	defer ctx.Destroy()\n","	ctx := types.NewContext()\n",'violation:C16.R4')
 add('C16','benign-named-recover-var',RO,"			if err := recover(); err != nil {\n				r.recoverFunc(w, err)\n			}","			if rec := recover(); rec != nil {\n				r.recoverFunc(w, rec)\n			}",'silent')
 # fmt import needed for wrapped-panic-value
@@ -290,8 +290,8 @@ add('C17','benign-ambiguous-conjuncts-reordered',SG,"		return seg.Endpoint == s2
 
 add('C13','andfunc-builds-or',MA,"	return AndMatcher(f2i(f...)...)","	return OrMatcher(f2i(f...)...)",'violation:C13.R10')
 add('C13','or-accepts-on-rejection',MA,"			if ok := mm.Match(r, ctx); ok {\n				return true\n			}","			if ok := mm.Match(r, ctx); !ok {\n				return true\n			}",'violation:C13.R10')
-add('C13','and-ignores-rejection',MA,"			if !mm.Match(r, ctx) {\n				return false\n			}","			if !mm.Match(r, ctx) {\n				continue\n			}",'violation:C13.R10')
-add('C13','benign-and-verdict-local',MA,"			if !mm.Match(r, ctx) {\n				return false\n			}","			accepted := mm.Match(r, ctx)\n			if accepted {\n				continue\n			}\n			return false",'silent')
+add('C13','and-ignores-rejection',MA,"				r.URL.Path = path\n				restoreParams(ctx, ps)\n				return false","				r.URL.Path = path\n				restoreParams(ctx, ps)\n				continue",'violation:C13.R10')
+add('C13','benign-and-verdict-local',MA,"			if !mm.Match(r, ctx) {\n				r.URL.Path = path","			accepted := mm.Match(r, ctx)\n			if !accepted {\n				r.URL.Path = path",'silent')
 
 add('C12','withcors-headers-swapped',OP,"			AllowHeaders:     allowHeaders,\n			ExposedHeaders:   exposedHeaders,","			AllowHeaders:     exposedHeaders,\n			ExposedHeaders:   allowHeaders,",'violation:C12.R10')
 add('C11','withcors-origins-from-headers',OP,"			Origins:          origin,","			Origins:          allowHeaders,",'violation:C11.R9')
@@ -319,7 +319,7 @@ add('C16','group-hands-recovery-to-router',GR,"	r.Use(g.ms...)\n","	r.Use(g.ms..
 add('C18','hastrace-by-type-assertion',TR,"	hasTrace := trace != nil\n	var t T\n	if hasTrace {\n		t = trace.(T)\n	}","	t, hasTrace := trace.(T)",'violation:C18.R9')
 add('C18','benign-hastrace-as-branch',TR,"	hasTrace := trace != nil\n	var t T\n	if hasTrace {\n		t = trace.(T)\n	}","	var hasTrace bool\n	var t T\n	if trace != nil {\n		hasTrace = true\n		t = trace.(T)\n	}",'silent')
 add('C14','hosts-rejects-underscore',MA,"	ctx.Path = strings.ToLower(h)\n","	if strings.Contains(h, \"_\") {\n		return false\n	}\n	ctx.Path = strings.ToLower(h)\n",'violation:C14.R10')
-add('C14','hosts-add-trims-port',MA,"		err := hs.tree.Add(strings.ToLower(d), hs.emptyHandlerFunc, nil, http.MethodGet)","		err := hs.tree.Add(strings.ToLower(strings.TrimSuffix(d, \":80\")), hs.emptyHandlerFunc, nil, http.MethodGet)",'violation:C14.R1b')
+add('C14','hosts-add-trims-port',MA,"		err := hs.tree.Add(lowerDomain(d), hs.emptyHandlerFunc, nil, http.MethodGet)","		err := hs.tree.Add(lowerDomain(strings.TrimSuffix(d, \":80\")), hs.emptyHandlerFunc, nil, http.MethodGet)",'violation:C14.R1b')
 add('C05','trimspace-on-names',SG,"		seg.Name = val[start+1 : end]\n","		seg.Name = strings.TrimSpace(val[start+1 : end])\n",'violation:C05.R12')
 add('C17','ambiguity-search-skipped-when-empty',TR,"	if err := tree.checkAmbiguous(pattern); err != nil {\n		return err\n	}","	if len(tree.node.children) > 0 {\n		if err := tree.checkAmbiguous(pattern); err != nil {\n			return err\n		}\n	}",'violation:C17.R9')
 add('C03','clean-shortcut-by-find',TR,"	tree.node.clean(prefix)\n","	if n := tree.Find(prefix); n != nil && n.parent != nil {\n		n.parent.children = removeNodes(n.parent.children, n.segment.Value)\n		n.parent.buildIndexes()\n	} else {\n		tree.node.clean(prefix)\n	}\n",'violation:C03.R8')
@@ -328,6 +328,31 @@ add('C11','first-header-line-only',OP,"strings.Join(r.Header.Values(header.Acces
 add('C10','strict-url-of-interior-node',TR,"	if n == nil || n.size() == 0 {","	if n == nil {",'violation:C10.R3b')
 
 base=os.path.dirname(os.path.abspath(__file__))
+# ---------------- bug-hunt round: each repaired defect re-introduced
+add('C20','hunt-delete-unguarded',ND,"		if child.segment.Captures() { // 未写入参数的节点不能删除同名的参数，该参数可能来自于 [Matcher]。\n			ctx.Delete(child.segment.Name)\n		}","		ctx.Delete(child.segment.Name)",'violation:C20.R4')
+add('C01','hunt-captures-ignores-flag',SG,"func (seg *Segment) Captures() bool { return seg.Type != String && !seg.ignoreName }","func (seg *Segment) Captures() bool { return seg.Type != String }",'violation:C01.R1')
+add('C10','hunt-url-global-table',RO,"		if err := r.interceptors.URL(&buf, pattern, params); err != nil {","		if err := emptyInterceptors.URL(&buf, pattern, params); err != nil {",'violation:C10.R13')
+add('C13','hunt-and-keeps-path',MA,"				r.URL.Path = path\n				restoreParams(ctx, ps)\n				return false","				_ = path\n				restoreParams(ctx, ps)\n				return false",'violation:C13.R10')
+add('C13','hunt-and-keeps-params',MA,"				r.URL.Path = path\n				restoreParams(ctx, ps)\n				return false","				r.URL.Path = path\n				_ = ps\n				return false",'violation:C13.R10')
+add('C13','hunt-restore-forgets-set',MA,"	for k, v := range ps {\n		ctx.Set(k, v)\n	}\n}","}",'violation:C13.R10')
+add('C13','hunt-snapshot-inverted',MA,"	if ctx.Count() == 0 {\n		return nil\n	}\n\n	ps := make","	if ctx.Count() != 0 {\n		return nil\n	}\n\n	ps := make",'violation:C13.R10')
+add('C12','hunt-empty-element-denies',OP,"		if v == \"\" { // 列表中的空元素不代表任何报头\n			continue\n		}\n","",'violation:C12.R11')
+add('C06','hunt-two-reads',OP,"		wh.Set(header.AccessControlAllowMethods, strings.Join(methods, \", \"))","		wh.Set(header.AccessControlAllowMethods, node.AllowHeader())",'violation:C06.R10')
+add('C08','hunt-head-no-content-type',RO,"			h.Set(header.ContentType, http.DetectContentType(bs))","			_ = http.DetectContentType(bs)",'violation:C08.R5')
+add('C08','hunt-head-overwrites-type',RO,"		if !hasType && h.Get(header.ContentEncoding)","		if (hasType || !hasType) && h.Get(header.ContentEncoding)",'violation:C08.R5')
+add('C11','hunt-empty-path-union',OP,"		if r.URL.Path == \"\" {\n			return\n		}\n","",'violation:C11.R12')
+add('C19','hunt-clean-keeps-dead-node',ND,"				if child.size() == 0 && len(child.children) == 0 { // 与 Remove 保持一致，不保留空节点。\n					dels = append(dels, child.segment.Value)\n				}\n","",'violation:C19.R4')
+add('C19','hunt-clean-prunes-live-node',ND,"				if child.size() == 0 && len(child.children) == 0 { // 与 Remove 保持一致，不保留空节点。","				if len(child.children) == 0 {",'violation:C19.R4')
+add('C14','hunt-lower-whole-pattern',MA,"		start := strings.IndexByte(domain, '{')\n		if start < 0 {","		start := strings.IndexByte(domain, '{')\n		if start < 0 || start > 0 {",'violation:C14.R1b')
+add('C02','hunt-resume-after-suffix',SG,"				i := strings.Index(ctx.Path[index+1:], seg.Suffix)\n				if i < 0 {\n					return false\n				}\n				index += i + 1","				i := strings.Index(ctx.Path[index+len(seg.Suffix):], seg.Suffix)\n				if i < 0 {\n					return false\n				}\n				index += i + len(seg.Suffix)",'violation:C02.R14')
+add('C01','hunt-suffix-not-compared',SG," && // loc[3] 为 -1 表示命名分组未参与匹配\n			ctx.Path[loc[3]:loc[1]] == seg.Suffix {"," { // loc[3] 为 -1 表示命名分组未参与匹配",'violation:C01.R17')
+add('C03','hunt-children-before-node',ND,"	if len(ctx.Path) == 0 && n.size() > 0 {\n		return n\n	}\n\n	if len(n.indexes) > 0","	if len(n.indexes) > 0",'violation:C03.R14')
+add('C17','hunt-skip-length-recomputed',SG,"func (seg *Segment) AmbiguousLen() int16 { return int16(len(seg.Value)) }","func (seg *Segment) AmbiguousLen() int16 { return seg.ambiguousLength + int16(len(seg.Name)) }",'violation:C17.R10')
+add('C02','hunt-endpoint-regexp-unanchored',SG,"		tail = `\\z`","		tail = \"\"",'violation:C02.R6')
+add('C05','hunt-remainder-error-returned',ND,"		if err != nil { // pattern 是被之前的节点从某个参数的中间截断的，完整的内容由 [Tree.Add] 负责验证，此处不可能存在歧义。\n			continue\n		}","		if err != nil {\n			return nil, false, err\n		}",'violation:C05.R13')
+add('C07','hunt-methods-shared-slice',ME,"	return slices.Clone(getMethodIndexEntity(n.getMethodIndex()).methods)","	return getMethodIndexEntity(n.getMethodIndex()).methods",'violation:C07.R9')
+add('C15','hunt-header-key-case',MA,"		acceptKey: strings.ToLower(key), // mime.ParseMediaType 返回的参数名称均为小写","		acceptKey: key,",'violation:C15.R7')
+
 for pid,entries in C.items():
     os.makedirs(os.path.join(base,pid),exist_ok=True)
     json.dump(entries,open(os.path.join(base,pid,'entries.json'),'w'),indent=1,ensure_ascii=False)
